@@ -6,6 +6,7 @@ pub mod cone;
 pub mod ell;
 pub mod poly;
 pub mod c07;
+pub mod c09;
 pub mod c10;
 pub mod c11;
 pub mod c14;
@@ -25,6 +26,7 @@ pub fn lookup(id: &str) -> Option<Monitor> {
     "C06" => Some(cone::monitor_c06()),
     "C07" => Some(c07::monitor_c07()),
     "C08" => Some(c07::monitor_c08()),
+    "C09" => Some(c09::monitor()),
     "C10" => Some(c10::monitor()),
     "C11" => Some(c11::monitor()),
     "C12" => Some(poly::monitor()),
